@@ -101,6 +101,24 @@ pub fn run(f: &[&str]) -> String {
             };
             ar.push(format!("{}:{}{}{}{}{}{}{}", k, c(strict), c(rel), rel_same, vi, c(dstrict), c(drel), drel_same));
         }
-        format!("vars={}\tdvars={}\tar={}", strs(fl.var_names()), strs(dp.var_names()), ar.join(","))
+        // binding: with a slice of exactly the right length every entry point binds the k-th value to
+        // the k-th name, i.e. all of them return the value `eval` returns (modulo associativity of
+        // flagged operators); the consuming entry points also when variables repeat
+        let vs = sym_vars(n);
+        let nf = |r: exmex::ExResult<Sym>| r.map(|s| s.assoc_nf(&crate::k_flat::flagged_of(&t)).to_string()).unwrap_or_else(|_| "E".into());
+        let want = nf(exact.clone());
+        let mut bind = "ok".to_string();
+        for (name, got) in [
+            ("eval_relaxed", nf(fl.eval_relaxed(&vs))),
+            ("eval_vec", nf(fl.eval_vec(vs.clone()))),
+            ("eval_iter", nf(fl.eval_iter(vs.clone().into_iter()))),
+            ("deep eval", nf(dp.eval(&vs))),
+            ("deep eval_relaxed", nf(dp.eval_relaxed(&vs))),
+        ] {
+            if got != want && bind == "ok" {
+                bind = format!("{} gives {} but eval gives {}", name, got, want);
+            }
+        }
+        format!("vars={}\tdvars={}\tar={}\tbind={}", strs(fl.var_names()), strs(dp.var_names()), ar.join(","), bind)
     })
 }
